@@ -345,6 +345,43 @@ def test(out, jobs, only=None, limit=None, kinds=None):
                 print(i, flush=True)
 
 
+def recheck_one(m):
+    tmp = tempfile.mkdtemp(prefix="msweep-")
+    try:
+        shutil.copytree(os.path.join(REPO, "src"), os.path.join(tmp, "src"),
+                        ignore=shutil.ignore_patterns("__pycache__", "*.pyc",
+                                                      "tests"))
+        p = os.path.join(tmp, m["file"])
+        b = open(p, "rb").read()
+        a0, b0 = m["a"], m["b"]
+        if b[a0:b0].decode("utf-8", "replace") != m["old"]:
+            # the file moved under a later repair: find the text again
+            k = b.find(m["old"].encode("utf-8"))
+            if k < 0 or b.find(m["old"].encode("utf-8"), k + 1) >= 0:
+                return dict(id=m["id"], status="stale")
+            a0, b0 = k, k + len(m["old"].encode("utf-8"))
+        open(p, "wb").write(b[:a0] + m["new"].encode("utf-8") + b[b0:])
+        return dict(id=m["id"], status="survived", fired=run_rules(tmp))
+    except Exception as exc:  # noqa
+        return dict(id=m["id"], status="error", detail=str(exc)[:200])
+    finally:
+        shutil.rmtree(tmp, ignore_errors=True)
+
+
+def recheck(out, jobs):
+    """run today's rule sets again on every survivor -> results2.jsonl"""
+    muts = {json.loads(l)["id"]: json.loads(l)
+            for l in open(os.path.join(out, "mutants.jsonl"))}
+    todo = [muts[json.loads(l)["id"]]
+            for l in open(os.path.join(out, "results.jsonl"))
+            if json.loads(l)["status"] == "survived"]
+    print(len(todo), "survivors to re-check")
+    with ProcessPoolExecutor(max_workers=jobs) as ex, \
+            open(os.path.join(out, "results2.jsonl"), "w") as f:
+        for r in ex.map(recheck_one, todo, chunksize=4):
+            f.write(json.dumps(r) + "\n")
+
+
 def report(out):
     muts = {json.loads(l)["id"]: json.loads(l)
             for l in open(os.path.join(out, "mutants.jsonl"))}
@@ -408,5 +445,7 @@ if __name__ == "__main__":
         gen(out, only)
     elif args[0] == "test":
         test(out, jobs, only, limit, kinds)
+    elif args[0] == "recheck":
+        recheck(out, jobs)
     elif args[0] == "report":
         report(out)
